@@ -56,7 +56,7 @@ var c07Muts = []string{
 	"next-drop", "next-add", "next-swap", "next-replace", "next-move-to-refs",
 	"refs-drop", "refs-add", "refs-swap", "refs-replace",
 	"v", "clock-id", "clock-time+1", "clock-time-1", "clock-time-0", "clock-time-set",
-	"key-other-writer", "sig-other-entry", "sig-flip", "sig-truncate", "sig-other-writer-same-content",
+	"key-other-writer", "key-flip", "key-truncate", "key-extended", "key-garbage", "key-cleared", "sig-other-entry", "sig-flip", "sig-truncate", "sig-other-writer-same-content",
 	// a field replaced by its "empty" value
 	"payload-cleared", "next-cleared", "refs-cleared", "clock-id-cleared", "clock-id-nil", "clock-id-truncated", "clock-id-extended", "logid-prefix", "v-zero",
 }
@@ -285,6 +285,19 @@ func runC07(tb ev.TB, p c07Prog) ev.Result {
 		m.SetClock(entry.NewLamportClock(e.GetClock().GetID(), nt))
 	case "key-other-writer":
 		m.SetKey(world.Identity((p.Writer + 1 + p.Arg%3) % 4).PublicKey)
+	case "key-flip":
+		k := append([]byte(nil), e.GetKey()...)
+		k[p.Arg%len(k)] ^= byte(1 << (p.Arg2 % 8))
+		m.SetKey(k)
+	case "key-truncate":
+		k := e.GetKey()
+		m.SetKey(append([]byte(nil), k[:p.Arg%len(k)]...))
+	case "key-extended":
+		m.SetKey(append(append([]byte(nil), e.GetKey()...), byte(p.Arg2)))
+	case "key-garbage":
+		m.SetKey([][]byte{bytes.Repeat([]byte{0xff}, 33), bytes.Repeat([]byte{0xff}, 65), []byte("not a key"), {0x04}, {0x02}, bytes.Repeat([]byte{0}, 65)}[p.Arg%6])
+	case "key-cleared":
+		m.SetKey(nil)
 	case "sig-other-entry":
 		o := createEntry(tb, store, p.Writer, io, p.LogID, append([]byte("x"), p.Payload...), next, refs, p.ClockID, p.Time)
 		m.SetSig(o.GetSig())
@@ -350,6 +363,14 @@ func runC07(tb ev.TB, p c07Prog) ev.Result {
 		}
 		return ev.Result{Classes: classes, Excluded: "C07/payload-json-collision"}
 	}
+	// other bytes for the SAME key (secp256k1 parsers ignore the low bit of the 0x04 prefix) are not "a different key"
+	if strings.HasPrefix(p.Mut, "key-") {
+		if k1, err1 := provider.UnmarshalPublicKey(e.GetKey()); err1 == nil {
+			if k2, err2 := provider.UnmarshalPublicKey(m.GetKey()); err2 == nil && k1.Equals(k2) {
+				return skip("same-key-other-encoding")
+			}
+		}
+	}
 	if err := m.Verify(provider, io); err == nil {
 		tb.Fatalf("mutation %s (arg %d/%d) of a signed entry still verifies (codec %s): payload %x -> %x", p.Mut, p.Arg, p.Arg2, world.Codec(p.Codec%3), p.Payload, m.GetPayload())
 	}
@@ -371,7 +392,7 @@ func runC07(tb ev.TB, p c07Prog) ev.Result {
 
 func TestC07(t *testing.T) {
 	c := ev.Get("C07")
-	c.Rule = "rapid generates an entry (arbitrary binary payload incl. invalid UTF-8, valid-UTF-8 log id, 0-6 predecessors and 0-6 references drawn without repetition from a CID pool, default or custom clock id, time over the whole int range with weight on 2^24, 2^31, 2^32, 2^53 and their neighbours, writer 0-3, default/link-key/legacy codec), creates and signs it with CreateEntryWithIO, checks it verifies, then applies one of 25 single-field mutations to a copy and requires Verify to fail. Non-trivial = the mutation touched a list of length >= 2 or the payload has a non-ASCII byte; distinct = distinct program. Payload mutations whose json.Marshal(string(payload)) equals the original's are the known finding C07/payload-json-collision: excluded and counted."
+	c.Rule = "rapid generates an entry (arbitrary binary payload incl. invalid UTF-8, valid-UTF-8 log id, 0-6 predecessors and 0-6 references drawn without repetition from a CID pool, default or custom clock id, time over the whole int range with weight on 2^24, 2^31, 2^32, 2^53 and their neighbours, writer 0-3, default/link-key/legacy codec), creates and signs it with CreateEntryWithIO, checks it verifies, then applies one of 40 single-field mutations (incl. keys that are flipped, truncated, extended, garbage or cleared) to a copy and requires Verify to fail. Non-trivial = the mutation touched a list of length >= 2 or the payload has a non-ASCII byte; distinct = distinct program. Payload mutations whose json.Marshal(string(payload)) equals the original's are the known finding C07/payload-json-collision: excluded and counted."
 	c.Assumptions = []string{"log ids are valid UTF-8 (they are names chosen by the application)", "signing is deterministic RFC 6979 ECDSA over secp256k1 with the harness's fixed keys"}
 	ev.Check(t, "C07", genC07, runC07)
 }
